@@ -156,6 +156,48 @@ def jobs(tier, seed):
         if rng.random() < 0.3:
             rng.shuffle(cx)
         out.append({"kind": "F-dominance-3", "terms": [term], "ctx": cx, "elim": ev, "refine": refine, "simplify": False, "tactics": rng.choice([[1], [1], [3], [1, 2, 3, 4, 5]])})
+    # family G: tactic 5 on two eliminated variables with a non-symmetric selection matrix: three or four context rows
+    # with small integer coefficients on (x, y), each row with its own kept variable (so rows can be tight together at a
+    # degenerate optimum when their constants tie), tactic 5 tried first
+    n_asym = 260 if tier == "quick" else 3000
+    for i in range(n_asym):
+        refine = rng.random() < 0.5
+        term = {"x": rng.choice([-2, -1, 1, 2]), "y": rng.choice([-2, -1, 1, 2]), "z": rng.choice([-1, 1])}
+        cx = []
+        for r in range(rng.choice([3, 3, 4])):
+            row = {}
+            while not row:
+                row = {v: c for v, c in (("x", rng.choice([-1, 0, 1, 1, 2])), ("y", rng.choice([-2, -1, 0, 1, 1]))) if c}
+            sg = 1 if refine else -1
+            row = {v: sg * (c if (term[v] > 0) else -c) for v, c in row.items()}
+            if rng.random() < 0.7:
+                row[f"k{r}"] = -1
+            cx.append(row)
+        if rng.random() < 0.5:
+            cx.append({"k0": 1})
+        out.append({"kind": "G-tactic5-asym", "terms": [term], "ctx": cx, "elim": ["x", "y"], "refine": refine, "simplify": rng.random() < 0.3, "tactics": rng.choice([[5], [5], [5, 1, 2, 3, 4], [5, 4]])})
+    # family H: tactic 2 on two or three eliminated variables: the context constrains only eliminated variables, listed so
+    # that their order of first appearance differs from the order in which they are to be eliminated
+    n_t2 = 160 if tier == "quick" else 2000
+    for i in range(n_t2):
+        k = rng.choice([2, 2, 3])
+        ev = ["x", "y", "u"][:k]
+        term = {v: rng.choice([-2, -1, 1, 2, 3]) for v in ev}
+        term["z"] = rng.choice([-1, 1])
+        order_in_ctx = list(ev)
+        rng.shuffle(order_in_ctx)
+        cx = []
+        for r in range(rng.choice([k, k + 1, k + 2])):
+            row = {}
+            for v in order_in_ctx:
+                c = rng.choice([-1, 0, 1, 1])
+                if c:
+                    row[v] = c
+            if not row:
+                row[order_in_ctx[0]] = 1
+            cx.append(row)
+        elim = list(reversed(ev)) if rng.random() < 0.5 else ev
+        out.append({"kind": "H-tactic2-multi", "terms": [term], "ctx": cx, "elim": elim, "refine": rng.random() < 0.5, "simplify": rng.random() < 0.3, "tactics": rng.choice([[2], [2], [2, 1], [1, 2, 3, 4, 5]])})
     # family C: seeded random shapes
     n_rand = 150 if tier == "quick" else 2500
     alphabet = BOUNDS[tier]["alphabet"]
